@@ -35,6 +35,9 @@ ARENA_FAMILIES = {
         fns=["memset_s", "memset16_s", "memset32_s", "memzero_s", "memzero16_s", "memzero32_s",
              "strzero_s", "strset_s", "strnset_s", "wcsset_s", "wcsnset_s"],
         quick=dict(N=6, K=3, BosMode=0), thorough=dict(N=8, K=5, BosMode=1), props={"C01", "C02", "C03", "C05", "C06", "C08"}),
+    "strfld": dict(
+        fns=["strcpyfld_s", "strcpyfldin_s", "strcpyfldout_s"],
+        quick=dict(N=6, K=3, BosMode=0), thorough=dict(N=8, K=4, BosMode=1), props={"C01", "C02", "C03", "C04", "C05", "C06", "C07", "C08"}),
     "query2": dict(
         fns=["strcmp_s", "strcasecmp_s", "strcoll_s", "strcmpfld_s", "wcscmp_s", "wcsncmp_s", "memcmp_s", "memcmp16_s", "memcmp32_s", "wmemcmp_s",
              "strstr_s", "strcasestr_s", "wcsstr_s", "strpbrk_s", "strspn_s", "strcspn_s", "strfirstdiff_s", "strfirstsame_s",
